@@ -26,23 +26,22 @@ _state = {}
 
 
 def regen(ctx):
+    """Translate; whatever cannot be translated is reported (GenError -> Lean-stage violation), but the C harness is
+    built in every case where the C still compiles — the dispatch needs only the signatures — and then all cases run
+    against the oracle alone (no model of the current source exists, and a stale one must not be compared)."""
     repo, cfg = cbuild.REPO, cbuild.config_include()
-    va_err = None
+    errs = []
     try:
-        try:
-            lean_math, lean_disp, meta = math_gen.generate(repo, cfg)
-        except cfun.GenError as e:
-            # if only source/math.c is outside its subset, keep the harness runnable (the oracle can still find a
-            # concrete failure); the Lean files are left as they were, the model is not consulted, and the translator
-            # error is reported
-            va_err = str(e)
-            lean_math, lean_disp, meta = math_gen.generate(repo, cfg, varargs=False)
+        lean_math, lean_disp, meta = math_gen.generate(repo, cfg, errors=errs)
         c_text, entries = math_gen.c_dispatch(repo, meta)
-        asm_text = math_gen.asm_shapes(repo)
     except cfun.GenError as e:
-        raise GenError(va_err or str(e))
-    write_if_changed(os.path.join(LEAN, "AwsVerif", "Gen", "MathAsmShapes.lean"), asm_text)
-    if va_err is None:
+        raise GenError("; ".join(errs + [str(e)]))
+    try:
+        asm_text = math_gen.asm_shapes(repo)
+        write_if_changed(os.path.join(LEAN, "AwsVerif", "Gen", "MathAsmShapes.lean"), asm_text)
+    except cfun.GenError as e:
+        errs.append(str(e))
+    if not errs:
         write_if_changed(os.path.join(LEAN, "AwsVerif", "Gen", "Math.lean"), lean_math)
         write_if_changed(os.path.join(LEAN, "AwsVerif", "Gen", "MathDispatch.lean"), lean_disp)
     h = hashlib.sha256(c_text.encode()).hexdigest()[:16]
@@ -53,20 +52,18 @@ def regen(ctx):
     global HARNESS, COMPONENT
     HARNESS = dict(name="mathv", flavour="plain", extra_cflags=["-I" + d, "-DGEN_HASH_" + h])
     COMPONENT = "math"
-    if va_err is not None:
-        # no model of the current source exists: run the implementation against the oracle only (a stale model from an
-        # earlier run must not be compared with it)
+    if errs:
         COMPONENT = None
-        raise GenError(va_err)
+        raise GenError("; ".join(errs))
 
 
 def _entries():
     if "entries" not in _state:
         try:
-            lean_math, lean_disp, meta = math_gen.generate(cbuild.REPO, cbuild.config_include(), varargs=False)
+            lean_math, lean_disp, meta = math_gen.generate(cbuild.REPO, cbuild.config_include(), varargs=False, errors=[])
             _, entries = math_gen.c_dispatch(cbuild.REPO, meta)
         except cfun.GenError:
-            entries = []     # the headers no longer translate (reported by the Lean stage); only `addv` cases remain
+            entries = []     # not even the signatures could be read (reported by the Lean stage); only `addv` cases remain
         _state["entries"] = entries
     return _state["entries"]
 
@@ -161,6 +158,26 @@ def gen_cases(rng, tier):
                 nf = rng.choice([rng.randint(1, 10 ** 9), rng.choice([1, 2, 3, 7, 1000, 999999937, 10 ** 9]), of, max(1, of // rng.randint(1, 9)) ])
                 t = rng.choice([rng.getrandbits(64), rng.getrandbits(rng.randint(1, 64)), rng.choice(tick_b)])
                 ops.append(f"m {v} {name} {t} {of} {nf}")
+            # arbitrary frequencies in [10^8, 10^9] (not powers of ten) with the exact quotient t*nf/of at, just below
+            # and just above an integer (where anything but exact integer arithmetic rounds the wrong way), and
+            # identical frequencies with ticks around 10^9 and around multiples of the frequency
+            def freq():
+                while True:
+                    f = rng.choice([rng.randint(10 ** 8, 10 ** 9), 10 ** 9 - rng.randint(1, 100), 10 ** 8 + rng.randint(1, 100),
+                                    999999937, 999999999, 536870912, 536870913])
+                    if f not in (10 ** 8, 10 ** 9):
+                        return f
+            for _ in range(60 if tier == "quick" else 6000):
+                of, nf = freq(), freq()
+                r = rng.choice([rng.randint(1, 1 << 20), rng.randint(1, 1 << 40), rng.randint(1, 1 << 62), rng.getrandbits(rng.randint(1, 63)) + 1])
+                t0 = (r * of + nf - 1) // nf            # the least t with floor(t*nf/of) >= r
+                for t in (t0 - 1, t0, t0 + 1, (r * of) // nf):
+                    if 0 <= t < (1 << 64):
+                        ops.append(f"m {v} {name} {t} {of} {nf}")
+                f = freq()
+                for t in (f - 1, f, f + 1, 10 ** 9 - rng.randint(0, 64), 10 ** 9 + rng.randint(0, 64), f - rng.randint(2, 100),
+                          rng.randint(1, 1 << 30) * f - 1, rng.randint(1, 1 << 30) * f + rng.randint(0, f - 1)):
+                    ops.append(f"m {v} {name} {t} {f} {f}")
             # the optional remainder pointer may be NULL: every operand triple again without it
             ops += [o.replace(f" {name} ", f" {name}:null ") for o in ops]
         elif info.get("float"):
